@@ -139,11 +139,10 @@ class ExternalAddress:
         from .builder import Builder
         if self.external_address is None:
             return Builder().store_bits('00').end_cell()
-        return (Builder()
-                .store_bits('01')
-                .store_uint(self.len, 9)
-                .store_uint(self.external_address, self.len)
-                .end_cell())
+        builder = Builder().store_bits('01').store_uint(self.len, 9)
+        if self.len:  # a zero-length external address has no address bits
+            builder.store_uint(self.external_address, self.len)
+        return builder.end_cell()
 
     def __repr__(self):
         if self.len is not None:
